@@ -1319,6 +1319,20 @@ func SliceAny(v ssa.Value, pred func(ssa.Value) bool) bool {
 			return walk(x.Tuple)
 		case *ssa.TypeAssert:
 			return walk(x.X)
+		case *ssa.Parameter:
+			// a parameter of an unexported helper: what its callers in the package pass
+			fn := x.Parent()
+			for i, p := range fn.Params {
+				if p != x {
+					continue
+				}
+				for _, site := range pkgCallers(fn) {
+					if cc := CC(site); cc != nil && i < len(cc.Args) && walk(cc.Args[i]) {
+						return true
+					}
+				}
+			}
+			return false
 		case *ssa.Alloc:
 			// a local array / struct (the backing array of a variadic argument): what is stored into it or its elements
 			if x.Referrers() != nil {
